@@ -148,6 +148,9 @@ Definition op_code (o : op) : Z :=
   | OEntityAt _ => 23 | OProbeAll => 24 | OStore so => sop_code so | ODropWorld => 99
   | OLazyInsert _ _ _ => 60 | OLazyInsertAll _ _ => 61 | OLazyRemove _ _ => 62 | OLazyExec _ => 63
   | OQuiet so => 100 + sop_code so | OBad => 0
+  | OJoin _ _ => 80
+  | OCs (CsNew _) => 81 | OCs (CsAdd _ _ _) => 82 | OCs (CsCollect _ _) => 83 | OCs (CsExtend _ _) => 84
+  | OCs (CsClear _) => 85 | OCs (CsDump _) => 86
   end%Z.
 
 (* acceptance by the specification (lifecycle allocator + plain-map storages) of the performed
